@@ -31,9 +31,27 @@ Fixpoint cache_get (c : Z) (t : Tr) (l : list (Z * Tr * Z)) : option Z :=
   | (c', t', k) :: r => if Z.eqb c' c && tr_eqb t' t then Some k else cache_get c t r
   end.
 
+(* a function over a list of subtrees, threading the state left to right *)
+Section MapSt.
+Context {A B S : Type} (f : A -> S -> res (B * S)).
+Fixpoint map_st (l : list A) (st : S) : res (list B * S) :=
+  match l with
+  | [] => Ok ([], st)
+  | a :: r =>
+      match f a st with
+      | Err e => Err e
+      | Ok (b, st1) =>
+          match map_st r st1 with
+          | Err e => Err e
+          | Ok (r', st2) => Ok (b :: r', st2)
+          end
+      end
+  end.
+End MapSt.
+
 (* pot_transform: surfaces get fresh numbers (sign kept), CellRefs are
    transformed through [rec] = cell_transform (cache on), nodes left to right *)
-Fixpoint ptrans (rec : Z -> tstate -> res (Z * tstate)) (t : Tr) (g : geom) (st : tstate)
+Fixpoint ptrans (rec : Z -> tstate -> res (Z * tstate)) (t : Tr) (g : geom) (st : tstate) {struct g}
   : res (geom * tstate) :=
   match g with
   | GSurf s =>
@@ -46,21 +64,7 @@ Fixpoint ptrans (rec : Z -> tstate -> res (Z * tstate)) (t : Tr) (g : geom) (st 
       | Ok (k, st') => Ok (GRef k, st')
       end
   | GNode op args =>
-      match
-        (fix go (l : list geom) (st : tstate) : res (list geom * tstate) :=
-           match l with
-           | [] => Ok ([], st)
-           | a :: r =>
-               match ptrans rec t a st with
-               | Err e => Err e
-               | Ok (a', st1) =>
-                   match go r st1 with
-                   | Err e => Err e
-                   | Ok (r', st2) => Ok (a' :: r', st2)
-                   end
-               end
-           end) args st
-      with
+      match map_st (ptrans rec t) args st with
       | Err e => Err e
       | Ok (args', st') => Ok (GNode op args', st')
       end
